@@ -6,6 +6,11 @@
 #include "util/file_stream.hh"
 #include "util/file_piece.hh"
 #include "util/pcqueue.hh"
+#ifdef PREPROCESS_VERIF
+#include "util/verif_hooks.hh"
+#else
+#define PV_TRACE(kind, a, b)
+#endif
 
 
 namespace {
@@ -35,6 +40,7 @@ int main(int argc, char **argv) {
 
 		// Decoded document buffer
 		std::string doc;
+		std::size_t pv_index = 0;
 
 		for (util::StringPiece line : in) {
 			preprocess::base64_decode(line, doc);
@@ -55,14 +61,18 @@ int main(int argc, char **argv) {
 			
 			// Send line count first to the reader, so it can start reading as
 			// soon as we start feeding the document to the child.
+			PV_TRACE("F.enq", pv_index, doc_desc.line_cnt);
 			line_cnt_queue.Produce(std::move(doc_desc));
 
 			// Feed the document to the child.
 			// Might block because it can cause a flush.
 			child_in << doc;
+			PV_TRACE("F.write", pv_index, 0);
+			++pv_index;
 		}
 
 		// Tell the reader to stop
+		PV_TRACE("F.poison", 0, 0);
 		line_cnt_queue.Produce(Document{
 			.line_cnt = 0,
 			.has_trailing_newline = false
@@ -70,6 +80,7 @@ int main(int argc, char **argv) {
 
 		// Flush (blocks).  The FileStream destructor closes.
 		child_in.flush();
+		PV_TRACE("F.close", 0, 0);
 	});
 
 	std::thread reader([&child_out_fd, &line_cnt_queue]() {
@@ -82,6 +93,7 @@ int main(int argc, char **argv) {
 
 		while (line_cnt_queue.Consume(document).line_cnt > 0) {
 			++doc_cnt;
+			PV_TRACE("C.consume", document.line_cnt, 0);
 
 			doc.clear();
 			doc.reserve(document.line_cnt * 4096); // 4096 is not a typical line length
@@ -89,6 +101,7 @@ int main(int argc, char **argv) {
 			try {
 				while (document.line_cnt-- > 0) {
         util::StringPiece line(child_out.ReadLine('\n', false));
+					PV_TRACE("C.read", 0, 0);
 					doc.append(line.data(), line.length());
 
 					// ReadLine eats line endings. Between lines we definitely
@@ -104,6 +117,7 @@ int main(int argc, char **argv) {
 			std::string encoded_doc;
 			preprocess::base64_encode(doc, encoded_doc);
 			out << encoded_doc << '\n';
+			PV_TRACE("C.out", 0, 0);
 		}
 
 		// Assert that we have consumed all the output of the child program.
